@@ -16,7 +16,7 @@
    out     ::= (0 <line>) | (1 <mechanism> <verdict>) | (2) close | (3) authenticated | (4) exception
    sevent  ::= (0 <reply>) | (1 <mechanism> <verdict>) | (2) disconnect | (3) authenticated | (4)
    reply   ::= (0 <mechanism list>) | (1 <guid>) | (2 <hex>) | (3) error | (4) agree | (5 <line>)   *)
-From Tx Require Import Lib.Base Lib.Sexp Model.AuthText Model.AuthServer Spec.AuthSpec.
+From Tx Require Import Lib.Base Lib.Sexp Model.AuthText Model.AuthServer Spec.AuthSpec Model.CookieStore.
 Local Open Scope Z_scope.
 
 Definition fixes_of (s : sexp) : option fixes :=
@@ -98,6 +98,37 @@ Definition read_of (s : sexp) : option bytes :=
 Definition table_fn (t : list (bytes * bytes)) (x : bytes) : bytes :=
   match alist_get str_eqb x t with Some y => y | None => [] end.
 
+(* (6 2 <id rule: 0 = largest id + 1 (the code), 1 = number of lines + 1> (<cookie> ...) (<challenge> ...)
+        ((<sha1hex input> <sha1hex output>) ...) ((<id> <cookie>) ...) (<event> ...))
+     several connections sharing one keyring file (Model/CookieStore.v)
+     event ::= (0 <conn>) start | (1 <conn> <response>) finish | (2 <conn>) cancel | (3 <conn>) drop
+     answer: one ((<id in the file> ...) <verdict: () | (<verdict>)>) per event *)
+Definition sev_of (s : sexp) : option sev :=
+  match s with
+  | SList [SNum 0; c] => option_map Start (as_nat c)
+  | SList [SNum 1; c; SBytes r] => option_map (fun c => Finish c r) (as_nat c)
+  | SList [SNum 2; c] => option_map Cancel (as_nat c)
+  | SList [SNum 3; c] => option_map Drop (as_nat c)
+  | _ => None
+  end.
+
+Definition entry_of (s : sexp) : option (N * bytes) :=
+  match s with
+  | SList [i; SBytes k] => option_map (fun i => (i, k)) (as_N i)
+  | _ => None
+  end.
+
+Definition op_store (rule : sexp) (cookies chals sha st evs : list sexp) : sexp :=
+  match as_bool rule, map_opt as_bytes cookies, map_opt as_bytes chals, map_opt pair_of sha,
+        map_opt entry_of st, map_opt sev_of evs with
+  | Some len_rule, Some cookies, Some chals, Some sha, Some st, Some evs =>
+      SList (map (fun o => SList [SList (map sN (fst o)); sopt sverdict (snd o)])
+                 (observe (if len_rule then alloc_len else alloc_max)
+                          (fun n => nth n cookies []) (fun n => nth n chals []) (table_fn sha)
+                          (sys0 st) evs))
+  | _, _, _, _, _, _ => bad
+  end.
+
 Definition op (args : list sexp) : sexp :=
   match args with
   | [SNum 0; fx; SList ms; SBytes guid; SList vs; SList rs] =>
@@ -123,5 +154,7 @@ Definition op (args : list sexp) : sexp :=
                   SList (map sN (w_store (a_world (c_auth c)))) ]
       | _, _, _, _, _, _, _, _ => bad
       end
+  | [SNum 2; rule; SList cookies; SList chals; SList sha; SList st; SList evs] =>
+      op_store rule cookies chals sha st evs
   | _ => bad
   end.
